@@ -865,9 +865,10 @@ def _normalized_mutual_info_score(reference_indices, estimated_indices):
     # Calculate the expected value for the mutual information
     # Calculate entropy for each labeling
     h_true, h_pred = _entropy(reference_indices), _entropy(estimated_indices)
-    # When one labeling is not split at all, MI is zero up to rounding error:
-    # do not divide that rounding error by the 1e-10 floor below
-    if abs(mi) < np.finfo(float).eps:
+    # When one labeling is not split at all its entropy is zero and MI is
+    # zero up to rounding error: do not divide that rounding error by the
+    # 1e-10 floor below
+    if h_true == 0 or h_pred == 0:
         return 0.0
     nmi = mi / max(np.sqrt(h_true * h_pred), 1e-10)
     return nmi
